@@ -891,6 +891,8 @@ class Interp:
         inits = self._loop_placeholders(assigned, written_cells, written_attrs, site, s0)
         pre()
         test = self.sym(self.eval(test_node)) if test_node is not None else None
+        if test is not None:
+            self.emit("while", st, test)
         self.conds.append(test if test is not None else mk("loopcond", tag=site))
         self.exec_block(body_stmts)
         self.conds.pop()
